@@ -358,6 +358,46 @@ func genVectorCases(r *rand.Rand) []Case {
 	return out
 }
 
+// genVectorCases2: the second set of frozen vectors (format2.json) — keys and values that are
+// strings with characters around encoding/json's escaping rules (kinds strx / esc), the long
+// values, and the nil / empty byte slices.
+func genVectorCases2(r *rand.Rand) []Case {
+	var out []Case
+	for _, bf := range allBF {
+		for _, fm := range []string{"bin", "json"} {
+			for _, kv := range [][2]string{{"strx", "esc"}, {"vk", "esc"}, {"strx", "u64"}, {"u64", "esc"}, {"str", "nb"}} {
+				cfg := Cfg{BF: bf, Fmt: fm, KK: kv[0], VKind: kv[1], Cache: "none"}
+				uni := Universe(r, cfg, 20+r.Intn(20))
+				ops := []string{"new 0"}
+				for i, k := range uni {
+					ops = append(ops, opIns(0, k, uint64(i*5+int(k%3))))
+					if i%9 == 8 {
+						ops = append(ops, fmt.Sprintf("roots 0 %d", i))
+					}
+				}
+				ops = append(ops, "roots 0 999", "load 999 1", "iter 1", "stat 1")
+				out = append(out, Case{cfg, ops})
+			}
+		}
+	}
+	return out
+}
+
+func writeVectors2(path string, seed int64) {
+	r := rand.New(rand.NewSource(seed))
+	var vs []Vector
+	for _, c := range genVectorCases2(r) {
+		s := NewSession(c.Cfg)
+		v := Vector{Case: c}
+		for _, line := range c.Ops {
+			obs, _ := s.Exec(line)
+			v.Expect = append(v.Expect, obs)
+		}
+		vs = append(vs, v)
+	}
+	writeJSON(path, vs)
+}
+
 // writeVectors is run once against the pinned release (see vectors/README).
 func writeVectors(path string, seed int64) {
 	r := rand.New(rand.NewSource(seed))
@@ -381,10 +421,13 @@ func famFormat(f *FamCtx) {
 	rn := formatRunner
 	f.Gen = func() Case { return genFormatCase(f.Rand) }
 	// vectors first
-	b, err := os.ReadFile(filepath.Join(vectorsDir(), "format.json"))
-	if err != nil {
-		f.Report.Findings = append(f.Report.Findings, Finding{Family: "format", Property: "C14", Note: "frozen vectors missing: " + err.Error()})
-	} else {
+	nvec := 0
+	for _, file := range []string{"format.json", "format2.json"} {
+		b, err := os.ReadFile(filepath.Join(vectorsDir(), file))
+		if err != nil {
+			f.Report.Findings = append(f.Report.Findings, Finding{Family: "format", Property: "C14", Note: "frozen vectors missing: " + err.Error()})
+			continue
+		}
 		var vs []Vector
 		if err := json.Unmarshal(b, &vs); err != nil {
 			panic(err)
@@ -394,8 +437,9 @@ func famFormat(f *FamCtx) {
 			vr := Runner{Mk: func(c Cfg) Executor { return &vectorExec{s: NewSession(c), expect: v.Expect} }}
 			f.RunTreeCase(v.Case, vr, func(CaseStats) bool { return true })
 		}
-		f.Report.Stats = map[string]interface{}{"vectors": len(vs)}
+		nvec += len(vs)
 	}
+	f.Report.Stats = map[string]interface{}{"vectors": nvec}
 	n := f.N(150, 5000)
 	for i := 0; i < n; i++ {
 		f.RunTreeCase(f.Gen(), rn, func(CaseStats) bool { return true })
